@@ -53,6 +53,7 @@ class Run(OpsMixin, CallsMixin):
         self.region = {}          # address sexpr -> private list region (local, non-escaping lists)
         self.local_lists = set()
         self.alloc_region = None
+        self.static_dicts = {}    # address sexpr -> items of a dict display (iteration order = written order)
         self.ycount = z3.IntVal(0)        # ghost: number of items yielded so far (generator functions)
         self.yconcat = z3.StringVal('')   # ghost: concatenation of the str items yielded so far
         self.known_cls = {}       # address sexpr -> class id (classes never change after allocation)
@@ -770,7 +771,7 @@ class Run(OpsMixin, CallsMixin):
             self.heap[f] = new
             self.len_axiom(f)
             limit = self.entry.alloc if self.entry is not None else pre_alloc
-            conds = [a >= 0, a < limit] + [z3.Not(m(a)) for m in mods]
+            conds = [a >= 0, a < limit] + ([] if f == 'cls' else [z3.Not(m(a)) for m in mods])
             body = z3.Implies(z3.And(conds), z3.Select(new, a) == z3.Select(old, a))
             self.assume(z3.ForAll([a], body, patterns=[z3.Select(new, a)]))
         self.alloc = new_alloc
